@@ -171,7 +171,14 @@ func runC19(c *Check) {
 			k++
 			h := p.T(s.Common().Args[1])
 			c.Req(h.Op == "index" && optimizing(h.Args[0]) && h.Args[1].IsConst("0"), fnBalance, p.InstrPos(s), nthKey("resync", k)+":first", "settings are re-synced for the first optimising host only", "")
-			c.Gate(bfa, s, nthKey("resync", k)+":single", "… when it is the only one, or after the surplus was stopped", lenIs("1"), surplusStopped)
+			lenOf := func(t *Term) bool { return t.Op == "len" && optimizing(t.Args[0]) }
+			atMostOne := CmpLit("<=", lenOf, func(t *Term) bool { return t.IsConst("1") }) // ¬(1 < len)
+			nonEmpty := func(l Lit) bool {
+				return CmpLit("!=", lenOf, func(t *Term) bool { return t.IsConst("0") })(l) || CmpLit("<", func(t *Term) bool { return t.IsConst("0") }, lenOf)(l) ||
+					CmpLit("<=", func(t *Term) bool { return t.IsConst("1") }, lenOf)(l)
+			}
+			c.Gate(bfa, s, nthKey("resync", k)+":single", "… when it is the only one, or after the surplus was stopped", lenIs("1"), atMostOne, surplusStopped)
+			c.Gate(bfa, s, nthKey("resync", k)+":non-empty", "… and there is one (the surplus branch implies more than one)", lenIs("1"), nonEmpty, surplusStopped)
 		}
 		// more than one → stop the surplus
 		for _, b := range B.Blocks {
